@@ -13,8 +13,8 @@ import time
 import traceback
 
 VERIF = os.path.dirname(os.path.dirname(os.path.abspath(__file__)))
-EVID = os.path.join(VERIF, 'evidence')
-OUT = os.path.join(VERIF, 'out')
+OUT = os.environ.get('VERIF_OUT') or os.path.join(VERIF, 'out')
+EVID = os.environ.get('VERIF_EVID') or os.path.join(VERIF, 'evidence')
 KF_FILE = os.path.join(VERIF, 'known_findings.json')
 
 
